@@ -8,6 +8,7 @@ def frSrv : SExp → Option Srv
 def frCType : SExp → Option CType
   | .atom "none" => some .none | .atom "xml" => some .xml | .atom "textxml" => some .textxml | .atom "obj" => some .obj
   | .atom "objparam" => some .objparam | .atom "otherobj" => some .otherobj | .atom "other" => some .other | .atom "bad" => some .bad
+  | .atom "objbadparam" => some .objbadparam | .atom "xmlbadparam" => some .xmlbadparam
   | _ => none
 def frBody : SExp → Option Body
   | .atom "empty" => some .empty | .atom "trunc" => some .trunc | .atom "random" => some .random | .atom "wrongroot" => some .wrongroot
